@@ -919,6 +919,14 @@ fn main() {
 		let (n_ic, ic_errs, ic_held) = if probes_only && std::env::var("VERIF_C10_ICPT").is_err() { (0, 0, 0) } else { icpt_family(&mut rec, args) };
 		rec.notes.insert("interception_worlds".into(), format!("{} worlds (a forwarding node holding 1-4 intercepted HTLCs; its handler accepts a prefix of the HTLCIntercepted events and replays the rest, the application forwards / fails some, the manager is written, crash, restart on the production reload path, optionally repeated); {} could not be set up; {} held HTLCs checked for a pending HTLCIntercepted event right after a restart, {} held HTLCs failed back by the expiry sweep (blocks connected to the fail-back deadline of the first-expiring held HTLC / one short of it); every world ends with the application forwarding what it was told about and every payment reaching its terminal event at the payer", n_ic, ic_errs, ic_held / 1000, ic_held % 1000));
 	}
+	for (flags, name) in [(false, "hold_probe"), (true, "hold_probe_with_interception")] {
+		match guarded(AssertUnwindSafe(|| hold_probe(args.seed ^ 0x401D ^ (flags as u64), flags))) {
+			Ok(Ok((text, Some(bad)))) => { rec.oracle_fail(format!("{} :: {} :: {}", HOLD_TEXT, bad, text)); rec.notes.insert(name.into(), format!("VIOLATED: {} :: {}", bad, text)); },
+			Ok(Ok((text, None))) => { rec.notes.insert(name.into(), format!("held: {}", text)); },
+			Ok(Err(e)) => { rec.notes.insert(name.into(), format!("could not be set up: {}", e)); },
+			Err(pn) => { rec.oracle_fail(format!("hold probe: the real code panicked: {}", pn.chars().take(300).collect::<String>())); rec.notes.insert(name.into(), format!("panicked: {}", pn.chars().take(300).collect::<String>())); },
+		}
+	}
 	// end-to-end probes of the repaired stale-manager holding-cell fail-back (HARD oracles): forwarded HTLC and own payment
 	for (own, by_timeout, name) in [(false, false, "kf6_probe"), (true, false, "kf6_probe_own_payment"), (false, true, "kf6_probe_timeout"), (true, true, "kf6_probe_own_payment_timeout")] {
 		let what = format!("{}, {}", if own { "own payment of the restarted node" } else { "forwarded HTLC" }, if by_timeout { "never claimed: resolved by the on-chain timeout" } else { "claimed on chain by the recipient" });
@@ -1296,7 +1304,7 @@ fn icpt_settle(net: &mut Net, t: usize) {
 	}
 }
 
-fn run_icpt_world(ops: &[IcOp], rec: &mut Rec, seed: u64, regen_total: &mut u64, swept: &mut u64) -> Result<(), String> {
+fn run_icpt_world(ops: &[IcOp], rebuild: bool, rec: &mut Rec, seed: u64, regen_total: &mut u64, swept: &mut u64) -> Result<(), String> {
 	use lightning::events::{EventsProvider, ReplayEvent};
 	use lightning::ln::channelmanager::{InterceptId, PaymentId};
 	use lightning::ln::functional_test_utils::{get_payment_preimage_hash, test_legacy_channel_config};
@@ -1305,8 +1313,8 @@ fn run_icpt_world(ops: &[IcOp], rec: &mut Rec, seed: u64, regen_total: &mut u64,
 	use lightning::types::features::{ChannelFeatures, NodeFeatures};
 	use lightning::util::config::HTLCInterceptionFlags;
 	use std::cell::{Cell, RefCell};
-	let key = icpt_key(ops);
-	let tag = format!("interception world [VERIF_C10_ICPT={}] (seed {})", key, seed);
+	let key = format!("{}{}", if rebuild { "rb:" } else { "" }, icpt_key(ops));
+	let tag = format!("interception world [VERIF_C10_ICPT={}] (seed {}{})", key, seed, if rebuild { ", reconstruct-from-monitors reload path" } else { "" });
 	vh::RELOAD_RECONSTRUCT_FROM_MONITORS.store(false, std::sync::atomic::Ordering::Relaxed);
 	let mut rng = Rng::new(seed);
 	let cfg = test_legacy_channel_config();
@@ -1414,14 +1422,38 @@ fn run_icpt_world(ops: &[IcOp], rec: &mut Rec, seed: u64, regen_total: &mut u64,
 				blocks_connected = true;
 				toks.push(format!("b{}", ht));
 			},
-			IcOp::P => { disk = Some(net.nodes[t].node.encode()); toks.push("p".into()); },
+			IcOp::P => {
+				// (on the reconstruct path: written as a build that can take that path writes it — committed inbound update_adds, TLV 75)
+				vh::WRITE_INBOUND_COMMITTED_UPDATE_ADDS.store(rebuild, std::sync::atomic::Ordering::Relaxed);
+				disk = Some(net.nodes[t].node.encode());
+				vh::WRITE_INBOUND_COMMITTED_UPDATE_ADDS.store(false, std::sync::atomic::Ordering::Relaxed);
+				toks.push("p".into());
+			},
 			IcOp::C => {
 				let mgr = match &disk { Some(m) => m.clone(), None => return Err("crash before the first write".into()) };
 				let (_, mons) = net.snapshot(t);
 				let held_disk_q: usize = 0; let _ = held_disk_q;
-				net.restart_from(t, &mgr, &mons).map_err(|e| format!("restart failed: {}", e))?;
+				vh::RELOAD_RECONSTRUCT_FROM_MONITORS.store(rebuild, std::sync::atomic::Ordering::Relaxed);
+				let r = net.restart_from(t, &mgr, &mons);
+				vh::RELOAD_RECONSTRUCT_FROM_MONITORS.store(false, std::sync::atomic::Ordering::Relaxed);
+				r.map_err(|e| format!("restart failed: {}", e))?;
 				told.clear(); crashed = true;
-				toks.push("c".into());
+				toks.push(if rebuild { "cr" } else { "c" }.into());
+				if rebuild {
+					// the map starts empty; the committed inbound HTLCs are decoded again by the first process_pending_htlc_forwards
+					let before = icpt_held(&net, t);
+					if !before.is_empty() { rec.oracle_fail(format!("{}: op {}: pending_intercepted_htlcs is not empty right after a restart on the reconstruct path ({} entries)", tag, n_op, before.len())); }
+					rec.case(&format!("icpt {}", toks.join(" ")), &show(&net, &told), "icpt:rebuild:fresh", true);
+					net.reconnect(t, 0); net.reconnect(t, 2);
+					icpt_settle(&mut net, t);
+					let mut again = icpt_held(&net, t);
+					again.sort_by_key(|h| order.iter().position(|o| *o == h.0).unwrap_or(usize::MAX));
+					for h in &again {
+						if !order.contains(&h.0) { rec.oracle_fail(format!("{}: op {}: after the restart an HTLC with an unknown intercept id {} is held", tag, n_op, &h.0[..12])); continue; }
+						let scid = first_ev.get(&h.0).and_then(|e| e.split('/').nth(1).map(|x| x.to_string())).unwrap_or_else(|| "-".into());
+						toks.push(format!("i{}:{}:{}:{}:{}:{}", hex48(&h.0), h.1, h.2, h.3, h.4, scid));
+					}
+				}
 				// ---- oracle: every held HTLC has its event pending again, equal to the one first delivered --------------------------
 				let evs = icpt_events(&net, t);
 				let held = icpt_held(&net, t);
@@ -1438,8 +1470,7 @@ fn run_icpt_world(ops: &[IcOp], rec: &mut Rec, seed: u64, regen_total: &mut u64,
 				}
 				*regen_total += regen;
 				rec.case(&format!("icpt {}", toks.join(" ")), &show(&net, &told), &format!("icpt:held{}:ev{}", held.len().min(3), evs.len().min(4)), !held.is_empty());
-				net.reconnect(t, 0); net.reconnect(t, 2);
-				icpt_settle(&mut net, t);
+				if !rebuild { net.reconnect(t, 0); net.reconnect(t, 2); icpt_settle(&mut net, t); }
 			},
 		}
 	}
@@ -1535,18 +1566,82 @@ fn icpt_family(rec: &mut Rec, args: &Args) -> (u64, u64, u64) {
 	}
 	let only = std::env::var("VERIF_C10_ICPT").ok();
 	let (mut n, mut errs, mut regen, mut swept) = (0u64, 0u64, 0u64, 0u64);
-	for w in worlds {
-		let key = icpt_key(&w);
+	let n_w = worlds.len();
+	let mut all: Vec<(Vec<IcOp>, bool)> = worlds.iter().cloned().map(|w| (w, false)).collect();
+	// the same worlds on the reconstruct-from-monitors reload path (every directed one; every third random one)
+	for (k, w) in worlds.into_iter().enumerate() { if w.contains(&IcOp::C) && (k < 20 || k % 3 == 0 || n_w == 0) { all.push((w, true)); } }
+	for (w, rebuild) in all {
+		let key = format!("{}{}", if rebuild { "rb:" } else { "" }, icpt_key(&w));
 		if let Some(o) = &only { if o != "all" && *o != key { continue; } }
 		n += 1;
 		let seed = rng.next();
-		match guarded(AssertUnwindSafe(|| run_icpt_world(&w, rec, seed, &mut regen, &mut swept))) {
+		match guarded(AssertUnwindSafe(|| run_icpt_world(&w, rebuild, rec, seed, &mut regen, &mut swept))) {
 			Ok(Ok(())) => {},
 			Ok(Err(e)) => { errs += 1; rec.discarded += 1; if std::env::var("VERIF_TRACE").is_ok() { eprintln!("interception world {} could not be set up: {}", key, e); } },
 			Err(p) => rec.oracle_fail(format!("interception world [VERIF_C10_ICPT={}] (seed {}): panic: {}", key, seed, p.chars().take(300).collect::<String>())),
 		}
 	}
 	(n, errs, regen * 1000 + swept.min(999))
+}
+
+/// Hold probe (async payments): node 1 (`enable_htlc_hold`) receives an update_add_htlc carrying `hold_htlc` (the sender asks its LSP to hold the HTLC until the often-offline
+/// recipient is online; emulated by setting the TLV on the sender's update_add in transit — it is not covered by the commitment signature).  Node 1 decodes it and keeps it in
+/// `pending_intercepted_htlcs` WITHOUT an event (`should_hold_htlc()` branch).  The manager is written, node 1 restarts on the production reload path.
+/// Oracle: the restart must not surface an Event::HTLCIntercepted for an HTLC the live node never reported (the protocol says it is held until release_held_htlc).
+/// Returns (description, Some(violation text)).
+const HOLD_TEXT: &str = "KF-C10-8 a restart invents Event::HTLCIntercepted for an HTLC that is HELD for an often-offline recipient (hold_htlc, async payments): the regeneration loop of from_channel_manager_data creates the event for every entry of pending_intercepted_htlcs, including should_hold_htlc() entries for which the live node never produced one";
+fn hold_probe(seed: u64, with_intercept_flags: bool) -> Result<(String, Option<String>), String> {
+	use lightning::ln::channelmanager::InterceptId;
+	use lightning::ln::functional_test_utils::test_legacy_channel_config;
+	use lightning::util::config::HTLCInterceptionFlags;
+	vh::RELOAD_RECONSTRUCT_FROM_MONITORS.store(false, std::sync::atomic::Ordering::Relaxed);
+	let mut rng = Rng::new(seed);
+	let cfg = test_legacy_channel_config();
+	let mut cfg_t = cfg.clone();
+	cfg_t.enable_htlc_hold = true;
+	if with_intercept_flags { cfg_t.htlc_interception_flags = HTLCInterceptionFlags::ToInterceptSCIDs as u8; }
+	let mut net = Net::new(3, vec![Some(cfg.clone()), Some(cfg_t), Some(cfg)]);
+	net.open(0, 1, 1_000_000, 300_000_000);
+	net.open(1, 2, 1_000_000, 300_000_000);
+	let t = 1usize;
+	let out_chan = net.chans[1].2;
+	let amt = 3_000_000 + rng.below(20_000_000);
+	let p = net.send(&[0, 1, 2], &[0, 1], amt, 70)?;
+	let mut marked = 0;
+	if let Some(q) = net.q.get_mut(&(0, 1)) { for w in q.iter_mut() { if let Wire::Add(m) = w { m.hold_htlc = Some(()); marked += 1; } } }
+	if marked != 1 { return Err(format!("{} update_add_htlc in transit", marked)); }
+	icpt_settle(&mut net, t);
+	let held = icpt_held(&net, t);
+	if held.len() != 1 { return Err(format!("the HTLC is not held by node 1 ({} entries in pending_intercepted_htlcs)", held.len())); }
+	let live_events = icpt_events(&net, t);
+	let idh = held[0].0.clone();
+	let mut idb = [0u8; 32]; idb.copy_from_slice(&unhex(&idh));
+	let mut text = format!("hold probe (seed {}, interception flags {}): node 1 holds HTLC {} of payment {} (amount {}) with hold_htlc set; HTLCIntercepted events pending in the live node: {}", seed, with_intercept_flags, &idh[..12], hex(&net.pays[p].hash.0[..4]), amt, live_events.len());
+	if !live_events.is_empty() { return Ok((text.clone(), Some(format!("the LIVE node queued Event::HTLCIntercepted for a held HTLC: {}", live_events[0].1)))); }
+	let mgr = net.nodes[t].node.encode();
+	let (_, mons) = net.snapshot(t);
+	net.restart_from(t, &mgr, &mons).map_err(|e| format!("restart failed: {}", e))?;
+	let held2 = icpt_held(&net, t);
+	let evs = icpt_events(&net, t);
+	text += &format!("; after writing the manager and restarting (production reload path): {} held, {} HTLCIntercepted event(s) pending", held2.len(), evs.len());
+	if evs.is_empty() { return Ok((text, None)); }
+	text += &format!(": {} (id/scid/hash/in/out/expiry)", evs[0].1);
+	// what can the application now do with the id it was handed?
+	net.reconnect(t, 0); net.reconnect(t, 2);
+	icpt_settle(&mut net, t);
+	let r = { let node = net.nodes[t].node; let to = net.ids[2]; guarded(AssertUnwindSafe(|| node.forward_intercepted_htlc(InterceptId(idb), &out_chan, to, amt))) };
+	let fwd = match r { Ok(Ok(())) => "Ok(()) — the held HTLC is forwarded although the recipient never released it".to_string(), Ok(Err(e)) => format!("Err({:?})", e).chars().take(160).collect(), Err(pn) => format!("panics (debug build): {}", pn.chars().take(200).collect::<String>()) };
+	text += &format!("; forward_intercepted_htlc with that id: {}", fwd);
+	// fresh restart for the other call
+	if net.restart_from(t, &mgr, &mons).is_ok() {
+		net.reconnect(t, 0); net.reconnect(t, 2);
+		icpt_settle(&mut net, t);
+		let r = { let node = net.nodes[t].node; guarded(AssertUnwindSafe(|| node.fail_intercepted_htlc(InterceptId(idb)))) };
+		let fl = match r { Ok(Ok(())) => { net.pump(t); net.settle(12); let id = net.pays[p].id; let failed = net.events[0].iter().any(|e| matches!(e, Event::PaymentFailed { payment_id, .. } if *payment_id == id)); format!("Ok(()) — the held HTLC is failed back (PaymentFailed at the payer: {})", failed) }, Ok(Err(e)) => format!("Err({:?})", e).chars().take(160).collect(), Err(pn) => format!("panics: {}", pn.chars().take(200).collect::<String>()) };
+		text += &format!("; after another restart from the same bytes, fail_intercepted_htlc: {}", fl);
+	}
+	std::mem::forget(net);
+	Ok((text.clone(), Some(format!("{} event(s) invented by the restart", evs.len()))))
 }
 
 // =====================================================================================================================
